@@ -25,15 +25,18 @@ let () =
         if not !stopped then begin
           let up = t.[0] = 'U' in
           let i = Char.code t.[1] - Char.code '0' in
-          match step !s (Dev (nat_of_int i, up)) with
-          | Ok (s', hs) ->
+          let ev = if String.length t = 3 then
+              DevDuring (nat_of_int i, up, (if t.[2] = 't' then TickDuring else FrameDuring))
+            else Dev (nat_of_int i, up) in
+          match step head_discipline !s ev with
+          | Ok (s', (d, hs)) ->
             s := s';
             let h = List.fold_left (fun a x -> a + int_of_nat x) 0 hs in
             let a = match s' with f :: _ -> can_form_adjacency f | [] -> false in
             out := (String.concat "/" ("ok" :: List.map state_tok s')
-                    ^ Printf.sprintf "/h%d/a%d/g1" h (b a)) :: !out
+                    ^ Printf.sprintf "/t%d/h%d/a%d/g1" (int_of_nat d) h (b a)) :: !out
           | Panic p -> out := panic_tok p :: !out; stopped := true
-          | Blocked _ -> out := "blocked" :: !out; stopped := true
+          | Blocked _ -> out := (if String.length t = 3 then "blocked:during-update" else "blocked:device-update") :: !out; stopped := true
         end) evs;
       let mo = List.rev !out in
       let mo = if mo = [] then ["-"] else mo in
